@@ -27,7 +27,7 @@ META = {
     "exhaustive": {"quick": True, "thorough": True},
     "space": {"quick": "all tree shapes of any arity with <=6 leaves (named / coloured variants), 48 end-to-end inputs up to 4+4 leaves with <=2 polytomies", "thorough": "all tree shapes of any arity with <=7 leaves, 1k end-to-end inputs up to 5+4 leaves with <=2 polytomies"},
     "assumptions": ["refinements are compared as unordered trees (sets of clades)"],
-    "timeout": {"quick": 900, "thorough": 7200},
+    "timeout": {"quick": 420, "thorough": 7200},
 }
 
 
